@@ -182,6 +182,11 @@ class Session:
                 return {"obj": C.canon(o)}
             if kind == "crash":
                 return {"crash": True}
+            if kind == "util":
+                if op["fn"] == "shadow":
+                    arr = pnd.integer_ndarray(np.array(op["rows"], dtype=np.int64))
+                    return {"v": C.canon(np.asarray(arr.ndint_compress(method="shadow", axis=0)))}
+                raise OpError(f"unknown util {op['fn']}")
             raise OpError(f"unknown op {kind}")
         except OpError:
             raise
